@@ -231,6 +231,25 @@ func c05Message(x *runCtx, r *mrand.Rand, id kex.CipherSuiteID) {
 		m2 := m0
 		m2.Value = m0.Value[:len(m0.Value)-1]
 		c05Check(x, s, cborBytes(m2.Tag()), plain, "mac-tag-truncated", false)
+		// a shortened tag together with altered content: an authenticator the sender of the message chooses the length of
+		for _, keep := range []int{0, 1, 8} {
+			e := cloneE()
+			{ // flip a ciphertext bit (CTR: flips the plaintext bit; CBC: garbles a block)
+				ct := append([]byte{}, *e.Ciphertext...)
+				ct[len(ct)-1] ^= 1
+				e.Ciphertext = &ct
+			}
+			ms := mac0T{Payload: cbor.NewByteWrap(e), Header: m0.Header}
+			ms.Value = append([]byte{}, m0.Value[:keep]...)
+			c05Check(x, s, cborBytes(ms.Tag()), plain, fmt.Sprintf("mac-tag-cut-to-%d-and-ciphertext-bit", keep), false)
+			iv := cloneE()
+			ivb := append([]byte{}, iv.Unprotected[cose.IvLabel].([]byte)...)
+			ivb[0] ^= 1
+			iv.Unprotected[cose.IvLabel] = ivb
+			mi := mac0T{Payload: cbor.NewByteWrap(iv), Header: m0.Header}
+			mi.Value = append([]byte{}, m0.Value[:keep]...)
+			c05Check(x, s, cborBytes(mi.Tag()), plain, fmt.Sprintf("mac-tag-cut-to-%d-and-iv-bit", keep), false)
+		}
 		m3 := m0
 		m3.Payload = nil
 		c05Check(x, s, cborBytes(m3.Tag()), plain, "mac0-payload-null", false)
